@@ -86,15 +86,15 @@ CLAIMS = {
         note="Trusted: TLC, zoo renderer, xpath text renderer. Malformed-text rejection of the legacy parser shares the grammar of C17 and is exercised there only for the current parser.",
         design="6 C20"),
     "C18": dict(
-        technique="TLA+ program generator (LegacyScripts.tla, TLC-exhaustive programs of public legacy operations) executed against the real classes + TLA+ property monitor (LegacyMonitor.tla) judging every distinct observed transition via TLC",
-        text="TLC enumerates every program of bounded length over the public legacy operations (construct in three modes, attach, detach, detach_self, replace of a property / of children / with a forbidden key, replace_with a node or None, duplicate attached / detached) with handles of earlier results as arguments; together with random 12-step programs over six classes they are executed against the real classes and every distinct transition (pre-state, operation, outcome, post-state; states projected from public observables only) is validated by TLC against LegacyMonitor.tla: for post-states of successful operations reached through successful operations without double placement the five C18 clauses (children attached with right parent / field / index, parent back link, one attached node per id, content_id equal to an independently built equal tree, ancestors / depth / calculated xpath agree).",
-        note="The specification part is the monitor (the properties as TLA+ predicates over observed states) and the program generator; a transition model of the legacy operations (DESIGN Appendix A) is not bound yet, so outcomes are the library's own. Known finding id-twin-nested is reported as KNOWN-FINDING. Transform visitors / transformers are not in the operation set.",
-        design="6 C18, Appendix A"),
+        technique="TLA+ transition machine of the legacy operations (Legacy.tla, transcribed critical section by critical section) model-checked by TLC with the C18 clauses as invariants (LegacyMC.tla) + TLC-generated witness programs of every model transition executed against the real classes + two TLC trace validations of every distinct observed transition: exact next-state conformance with the machine (Trace_LegacyMachine.tla) and the C18 clauses on the observed states (LegacyMonitor.tla / Trace_Legacy.tla); user transformations via TLC-enumerated programs (LegacyScripts.tla) judged by the monitor",
+        text="(a) TLC explores Legacy.tla itself: every history of bounded length over construct (three modes), attach, detach, detach_self, replace of a property / of children / with a forbidden key, replace_with a node or None, duplicate attached / detached, with states [objects with stored id / original id / parent id, field, index / cached content id; registry]; invariants: children attached with right parent / field / index, parent back link, cached content id equal to the structural one -- for histories of successful operations without double placement in which no node ever shared its id with a node below it (the recorded deviation id-twin-nested; without that guard TLC finds it). (b) TLC exports the witness program of every transition; these, TLC-enumerated programs with transform visitors / transformers (rules keep / bump / fresh / drop / boom) and random 12-step programs over six classes are executed against the real classes. (c) Every distinct observed transition (full pre-state incl. stored links and registry, operation, outcome, post-state) of a modelled operation must be exactly the transition Legacy.tla predicts; every transition from a consistent history is judged by the five C18 clauses on the observed post-state (incl. content_id equal to an independently built equal tree; ancestors / depth / calculated xpath).",
+        note="A clause failure is a KNOWN-FINDING only if the observed state is exactly what the machine predicts and has the shape id-twin-nested; transitions that differ from the machine without failing a clause are counted (model_divergences), not alarms. Cached content ids are bound through cidok on lines without stale caches.",
+        design="6 C18, Appendix A, 14.7"),
     "C19": dict(
-        technique="same generator and executions as C18; TLA+ frame predicate (LegacyMonitor.tla C19Clauses) evaluated by TLC on every distinct rejected transition",
-        text="Every distinct observed transition whose operation was rejected with a documented legacy error, from a state reached through successful operations, is validated by TLC against the C19 frame of LegacyMonitor.tla: for every pre-existing node attached?, parent / field / index, field values, id, original id and content_id are unchanged and the registry did not grow. Rejections arise at every child position reachable by the enumerated programs (first / later child, child or grandchild, attached or detached arguments).",
-        note="As C18. Known finding partial-attach-effects (rejected create / attach / replace / replace_with after partially attaching their arguments) is reported as KNOWN-FINDING; any change outside the argument subtrees, or to ids / fields / content ids, is a VIOLATION.",
-        design="6 C19, 7"),
+        technique="same machine, executions and trace validations as C18; C19 as invariants of the design in LegacyMC.tla (a rejected operation leaves the state unchanged unless the error came out of the attach phase) and as the frame predicate of LegacyMonitor.tla on every observed rejected transition",
+        text="TLC checks on Legacy.tla that every rejected operation from a clean history leaves the whole state unchanged except when the error is raised inside _attach_inner after earlier children were linked / registered (the named deviation partial-attach-effects), and that DuplicateChildren / IDCollision / ReplaceError never go with effects. Every distinct observed rejected transition (documented legacy errors incl. ASTTransformError) from a state reached through successful operations is validated by TLC against the C19 frame: attached?, parent / field / index, field values, id, original id, content_id of every pre-existing node and the registry size unchanged; and, for modelled operations, against the machine's exact prediction.",
+        note="A frame failure is KNOWN-FINDING partial-attach-effects only if the observed post-state is exactly the partial state Legacy.tla predicts for an attach-phase error; for ASTTransformer.execute (not modelled) the shape predicate of transformer-partial-effects applies. Anything else is a VIOLATION.",
+        design="6 C19, 7, 14.7"),
     "C10": dict(
         technique="TLA+ action properties (Immutable, MembershipFrame, FailFrame) on Registry.tla + Observe actions replayed with per-step fingerprints of every live node",
         text="In the Registry machine no action changes the record of a surviving slot (Immutable) and registry membership changes only in detach / detach_self / replace on the receiver's subtree (MembershipFrame); Observe actions stand for every read-only operation kind (traversals, Tree queries, xpath, patterns, visitors, transformers, comparison, hashing, rich printing, accessors, (de)serialization, setattr / delattr on every field) and are UNCHANGED. TLC exports every transition; the driver fingerprints every live node before each call and compares after it, and compares the whole abstract state with the spec's. Recorded histories are checked the same way at every step.",
